@@ -6,3 +6,4 @@
 import OidcModel.Proofs.C07Wire
 import OidcModel.Proofs.C07Fault
 import OidcModel.Proofs.C07Issue
+import OidcModel.Proofs.C07Alias
